@@ -7,12 +7,19 @@
    Segmentation: feeding a list of reads gives the events, oracle consumption, error and final state of feeding their
    concatenation in one read (ReadLimit off; both directions for a receiver without a message length limit, the
    success direction for every limit); hence the round trip holds for every cut of the wire into reads.
-   NOT a theorem (decided on every run by the differential run of the extracted model against real Conn pairs and
-   by the round-trip oracle): several messages with interleaved control frames in one theorem statement, the round trip
-   with a message length limit > 0 on the receiver; DEFLATE itself; the unrolled maskXOR. *)
+   Lists of messages: c12_messages_roundtrip(_compressed): ANY list of messages written by WriteMessage, with ping/pong
+   frames inserted anywhere into the sender's frames (also between the fragments of a message), against a receiver
+   whose MessageLengthLimit the messages respect (0 or not), in one read or in any cut into reads: delivered list =
+   sent list (type, payload, order), every inserted ping answered by one pong with the same payload, no error, the
+   connection stays open.  (Proved through c13_sequences: the RFC run over the sender's frames is computed without
+   the parser.)
+   NOT a theorem (tied to the code on every run by the differential run and the round-trip oracle): DEFLATE itself (the
+   law "reading the decompressor to its end gives the message" is a hypothesis), the unrolled maskXOR, ReadLimit > 0
+   (by design segmentation-dependent), lists that mix compressed and uncompressed messages on one connection
+   (write compression is a per-connection setting). *)
 From Coq Require Import List NArith Bool Lia.
 Import ListNotations.
-Require Import WsModel WsBasics WsFrame WsLimits WsRoundtrip WsRoundtrip2 WsSeg2 WsSeg3.
+Require Import WsModel WsBasics WsFrame WsLimits WsRoundtrip WsRoundtrip2 WsSeg2 WsSeg3 WsSeg4 WsRfc WsSeq WsSeq2 WsMsgs WsMsgs2.
 Open Scope N_scope.
 
 (* what writeFrame encodes, nextFrame's two halves (peek, body_of) decode: every payload length below 2^63,
@@ -85,6 +92,56 @@ Theorem c12_message_roundtrip_compressed_segmented cfgS stS oS cfgR stR oR mt da
       exists st', feed cfgR stR oR segs = (st', mko (o_keys oR) ir (o_defl oR), [EvMsg mt data], None) /\ idle st'.
 Proof. exact (roundtrip_compressed_segmented cfgS stS oS cfgR stR oR mt data z dr script ir). Qed.
 
+(* segmentation, both directions (errors included), receiver WITH a message length limit: the C15 state invariant
+   (message under assembly within the limit) replaces "no limit" *)
+Theorem c12_segmentation_limit cfg segs st o st' o' evs e :
+  msg_limit cfg < LIM62 -> read_limit cfg = 0 -> inv cfg st -> len (cache st) + len (concat segs) < LIM62 ->
+  feed cfg st o segs = (st', o', evs, e) ->
+  exists st2, parse_call cfg st (concat segs) o = (st2, o', evs, e) /\ (e = None -> st2 = st').
+Proof. intros Hl Hr. exact (feed_equiv_inv cfg Hl Hr segs st o st' o' evs e). Qed.
+
+(* ANY list of messages (text with valid UTF-8, binary), uncompressed, each within the receiver's limit; L is the
+   sender's frame sequence with arbitrary well-formed ping/pong frames inserted anywhere (strip removes exactly those).
+   delivered_ok: no error, connection open, messages handed to OnMessage = the list sent (type, payload, order), pings
+   handed to the ping handler = the inserted pings, each answered at once by a pong with the same payload, the endpoint
+   never closes the connection.  First for one Parse over the whole wire, then for every cut of the wire into reads. *)
+Theorem c12_messages_roundtrip cfgS stS oS cfgR stR oR msgs :
+  closed stS = false -> cclosed stS = false -> write_compress cfgS = false -> keys_ok oS ->
+  Forall (fun m => (fst m = 2 \/ (fst m = 1 /\ utf8_valid (snd m) = true)) /\ len (snd m) < LIM62 /\
+                   (msg_limit cfgR = 0 \/ len (snd m) <= msg_limit cfgR)) msgs ->
+  idle stR -> cclosed stR = false ->
+  exists oS' fs,
+    send_list cfgS stS oS msgs = (oS', map ev_of_frame fs, None) /\
+    forall L, strip L = map W fs -> inserted_ok L -> pay_total L < LIM62 ->
+      delivered_ok cfgR L msgs (parse_call cfgR stR (wire_w L) oR) /\
+      (msg_limit cfgR < LIM62 -> read_limit cfgR = 0 -> len (wire_w L) < LIM62 ->
+       forall segs, concat segs = wire_w L -> delivered_ok cfgR L msgs (feed cfgR stR oR segs)).
+Proof. exact (messages_roundtrip cfgS stS oS cfgR stR oR msgs). Qed.
+
+(* the same with permessage-deflate: cms = (type, message, deflate answer z) per message, scripts = what the receiver's
+   decompressor answers per message; law: reading the i-th script to its end gives the i-th message; the limit applies
+   to the compressed size (declared lengths) and, through read_all, to the inflated size *)
+Theorem c12_messages_roundtrip_compressed cfgS stS oS cfgR stR oR (cms : list (N * bytes * bytes)) scripts dr more :
+  closed stS = false -> cclosed stS = false -> write_compress cfgS = true -> keys_ok oS ->
+  o_defl oS = map (fun m => Some (snd m)) cms ++ dr ->
+  enable_compression cfgR = true -> o_infl oR = scripts ++ more ->
+  Forall2 (fun m s => read_all (msg_limit cfgR) [] s = ROk (snd (fst m))) cms scripts ->
+  Forall (fun m => (fst (fst m) = 2 \/ (fst (fst m) = 1 /\ utf8_valid (snd (fst m)) = true)) /\
+                   snd m <> [] /\ len (snd m) < LIM62 /\
+                   (msg_limit cfgR = 0 \/ len (snd m) <= msg_limit cfgR)) cms ->
+  idle stR -> cclosed stR = false ->
+  exists oS' fs,
+    send_list cfgS stS oS (map fst cms) = (oS', map ev_of_frame fs, None) /\
+    forall L, strip L = map W fs -> inserted_ok L -> pay_total L < LIM62 ->
+      delivered_ok cfgR L (map fst cms) (parse_call cfgR stR (wire_w L) oR) /\
+      (msg_limit cfgR < LIM62 -> read_limit cfgR = 0 -> len (wire_w L) < LIM62 ->
+       forall segs, concat segs = wire_w L -> delivered_ok cfgR L (map fst cms) (feed cfgR stR oR segs)).
+Proof. exact (messages_roundtrip_compressed cfgS stS oS cfgR stR oR cms scripts dr more). Qed.
+
+(* without inserted frames the wire is exactly what the sender wrote *)
+Theorem c12_messages_wire fs : wire_w (map W fs) = wire_of_events (map ev_of_frame fs).
+Proof. rewrite wire_of_events_frames. exact (wire_w_frames fs). Qed.
+
 (* non-vacuity *)
 Example c12_frame_example :
   wf_frame (mkf true false 1 true [1; 2; 3; 4] [72; 105]) /\
@@ -111,6 +168,29 @@ Example c12_bytewise_example :
   feed cfgR init_state (mko [] [] []) (map (fun x => [x]) w) = (init_state, mko [] [] [], [EvMsg 1 [72; 101; 108; 108; 111]], None).
 Proof. vm_compute. reflexivity. Qed.
 
+(* two messages from a client with a frame limit of 2, a ping inserted between the fragments of the first one, a
+   receiver with a limit of 3 bytes, the wire fed byte by byte *)
+Example c12_messages_example :
+  let cfgS := mkcfg true 0 0 false false 2 in
+  let cfgR := mkcfg false 3 0 false false 32768 in
+  let oS := mko [[1; 2; 3; 4]; [5; 6; 7; 8]; [9; 10; 11; 12]; [13; 14; 15; 16]] [] [] in
+  let evs := snd (fst (send_list cfgS init_state oS [(1, [72; 105; 33]); (2, [7; 8])])) in
+  let ping := WFrame (mkr true false false false 9 false [] 0 [112]) in
+  let f1 := mkf false false 1 true [1; 2; 3; 4] [72; 105] in
+  let f2 := mkf true false 0 true [5; 6; 7; 8] [33] in
+  let f3 := mkf true false 2 true [9; 10; 11; 12] [7; 8] in
+  evs = map ev_of_frame [f1; f2; f3] /\
+  let L := [W f1; ping; W f2; W f3] in
+  strip L = map W [f1; f2; f3] /\ inserted_ok L /\
+  let r := feed cfgR init_state (mko [] [] []) (map (fun x => [x]) (wire_w L)) in
+  msgs_bc (snd (fst r)) = [(1, [72; 105; 33]); (2, [7; 8])] /\ pings_bc (snd (fst r)) = [[112]] /\ snd r = None.
+Proof.
+  cbv zeta. split; [vm_compute; reflexivity|].
+  split; [vm_compute; reflexivity|]. split.
+  - repeat constructor; cbn; intros; try discriminate; try lia; auto.
+  - vm_compute. repeat split.
+Qed.
+
 Example c12_idle_init : idle init_state /\ keys_ok (mko [[1; 2; 3; 4]] [] []).
 Proof. split; [repeat split|repeat constructor]. Qed.
 
@@ -122,3 +202,7 @@ Print Assumptions c12_segmentation_success.
 Print Assumptions c12_segmentation.
 Print Assumptions c12_message_roundtrip_segmented.
 Print Assumptions c12_message_roundtrip_compressed_segmented.
+Print Assumptions c12_segmentation_limit.
+Print Assumptions c12_messages_roundtrip.
+Print Assumptions c12_messages_roundtrip_compressed.
+Print Assumptions c12_messages_wire.
